@@ -348,6 +348,15 @@ def _rot_body(r, ns, we, tag, mult, off, typ):
     else:
         ns_sig = eqsig.AccSignal(ns_arr, ROT_DT)
         we_sig = eqsig.AccSignal(we_arr, ROT_DT)
+    # what the objects hold before the functions under test run (the constructor may store integer records in a wider type:
+    # the values are the property's business, the storage type is not)
+    held0 = {}
+    for nm_, sg_, arr_ in (('ns', ns_sig, ns_arr), ('we', we_sig, we_arr)):
+        try:
+            h_ = np.array(sg_.values, copy=True)
+            held0[nm_] = h_ if h_.shape == np.shape(arr_) and [float(v) for v in h_] == [float(v) for v in arr_] else None
+        except Exception:
+            held0[nm_] = None
     base = {'ns': ns, 'we': we}
     if not plain:
         base['values'] = tag
@@ -450,7 +459,7 @@ def _rot_body(r, ns, we, tag, mult, off, typ):
     # the components themselves are left alone by all of the above (also by overwriting the returned combinations)
     for nm, sg, arr, xs in (('ns', ns_sig, ns_arr, nsx), ('we', we_sig, we_arr, wex)):
         try:
-            same = bits_equal(np.asarray(sg.values), arr) and sg.dt == ROT_DT and sg.npts == n
+            same = held0[nm] is not None and bits_equal(np.asarray(sg.values), held0[nm]) and sg.dt == ROT_DT and sg.npts == n
         except Exception:
             same = False
         r.expect('rotation.components-unchanged', dict(base, component=nm), same,
